@@ -97,6 +97,15 @@ def classify(c):
         if c["go"].startswith("HANG"):
             return dict(layer="property", what="soak: " + c["go"] + " (watchdog)", input=c)
         return dict(layer="property", what=f"recorded timeline of the real ConsumerGroup violates monitor(s) {model}", input=c)
+    if op == "conn" and c["args"].startswith("dl "):
+        api = c["args"][3:]
+        if "timing-twice" not in c["feats"]:
+            return dict(layer="correspondence", what=f"connection layer: {api}: measured class {c['go']} differs from the model's table but was not confirmed by the isolated re-measurement", input=None)
+        return dict(layer="property", what=f"connection layer: an unanswered {api} request failed in time class {c['go']}, the table of armed limits in Model/ConsumerGroup.v says {model} "
+                    "(T = Timeout, TR = Timeout+RebalanceTimeout, TS = Timeout+SessionTimeout; measured twice, the second time alone)", input=c)
+    if op == "conn":
+        return dict(layer="property", what="connection layer, bootstrap brokers " + c["args"][5:] + " (1 = reachable): expected " + model
+                    + " (connect = first reachable broker in order; a generation and LeaveGroup at Close iff some broker is up), observed " + c["go"][:120], input=c)
     if op == "wire" and c["args"].startswith("standby"):
         return dict(layer="property", what="wire level, stand-by member (SyncGroup assigned it no partition): it must heartbeat while the generation lives, a heartbeat answered "
                     "RebalanceInProgress must end the generation and make it re-join, Close must leave; observed: " + c["go"][:200], input=c)
@@ -233,6 +242,12 @@ def correspondence(ctx):
     # a scenario that hit the watchdog was re-run alone by the harness with the same seed: hanging
     # twice is a HANG result (handled above as a violation); hanging once only is a note
     notes = []
+    t_once = [c for c in cases if "timing-once-under-load" in c["feats"].split(",")]
+    if t_once:
+        notes.append(f"{len(t_once)} connection-layer time class(es) were off at the first measurement and as expected when measured again alone (machine load): "
+                     + "; ".join(c["args"] + " " + c["feats"] for c in t_once[:4]))
+        for c in t_once:
+            c["feats"] = "conn,unanswered"
     once = [c for c in cases if "hang-once-under-load" in c["feats"].split(",")]
     if once:
         notes.append(f"{len(once)} scenario(s) hit the {'30 s'} watchdog once and completed normally when re-run alone with the same seed "
@@ -271,7 +286,7 @@ def correspondence(ctx):
                      "e2e = random walks of the real ConsumerGroup driven label by label against a gated scripted coordinator (0-2 partition watchers, short or long back-off; answers ok / RebalanceInProgress / "
                      "other Kafka error / dropped connection at connect, FindCoordinator, JoinGroup (+leader readPartitions, unknown balancer, bad metadata), SyncGroup (+undecodable assignment), OffsetFetch, Heartbeat, "
                      "LeaveGroup, watcher readPartitions; Next / Next-cancel / Close / Start on live and ended generations / function exit interleaved), the executed label sequence replayed by the extracted model and "
-                     "journal, Next results, Start accounting and final Generation fields compared; soak = free-running consumers, timeline judged by extracted monitors; the member assignment of every successful SyncGroup answer is generated too (empty = stand-by member, not covering every configured topic, several topics, a foreign topic, a topic without partitions) and the number of functions started on the generation is compared at the moment Next hands it out; wire standby = a member assigned no partition must heartbeat, end its generation on a heartbeat answered RebalanceInProgress, re-join and leave on Close; e2e-joinerr = generation ends, re-join lost, LeaveGroup for the kept id must follow (regression); e2e-f5 + wire = the former F5 scenario (join, SyncGroup -> RebalanceInProgress, no Next, Close) as regression on the real code, interface seam and net.Pipe wire level; "
+                     "journal, Next results, Start accounting and final Generation fields compared; soak = free-running consumers, timeline judged by extracted monitors; the member assignment of every successful SyncGroup answer is generated too (empty = stand-by member, not covering every configured topic, several topics, a foreign topic, a topic without partitions) and the number of functions started on the generation is compared at the moment Next hands it out; wire standby = a member assigned no partition must heartbeat, end its generation on a heartbeat answered RebalanceInProgress, re-join and leave on Close; conn = the real makeConnect / timeoutCoordinator / Conn over net.Pipe against a scripted wire broker: per coordinator call an unanswered request must fail in the time class of the deadline the code arms (Timeout 250 ms, +RebalanceTimeout 1.5 s for JoinGroup, +SessionTimeout 3 s for SyncGroup; margin 1 s, re-measured alone before reporting), and bootstrap lists of 2-3 brokers with subsets unreachable (generation and LeaveGroup at Close iff some broker is up, dial attempts in order); e2e-joinerr = generation ends, re-join lost, LeaveGroup for the kept id must follow (regression); e2e-f5 + wire = the former F5 scenario (join, SyncGroup -> RebalanceInProgress, no Next, Close) as regression on the real code, interface seam and net.Pipe wire level; "
                      "a case is non-trivial when its feature set is not just {accounted start, close without waiting}; distinct by hash of op+args",
                 samples=[c["line"][:300] + " | " + c["go"][:160] for c in cases[:3] + cases[mid:mid + 3] + cases[-2:]],
                 notes=notes,
